@@ -402,7 +402,21 @@ def gen_gammak(out):
     fin = straight_k(tr, body[k + 1:])
     out += ["(* lines %d-%d: the value returned from the accumulators *)" % (body[k + 1].lineno, body[-1].end_lineno),
             "Definition gk_final_src (st : Q * Q * bool * bool) : Q :=\n    let '(%s) := st in\n    %s." % (", ".join(STATE), fin),
-            "Definition gk_loops_src : list string := [%s; %s]." % ('"%s"' % shape_outer, '"%s"' % shape_inner), ""]
+            "Definition gk_loops_src : list string := [%s; %s]." % ('"%s"' % shape_outer, '"%s"' % shape_inner)]
+    # what nv is: the body of UnitaryAlignment.nb_units, and what the n_tuple setter resets (normalised text)
+    ua_cls = [c for c in tree.body if isinstance(c, ast.ClassDef) and c.name == "UnitaryAlignment"]
+    if len(ua_cls) != 1:
+        raise Unsupported("class UnitaryAlignment not found")
+    props = {}
+    for f in ua_cls[0].body:
+        if isinstance(f, ast.FunctionDef) and f.name in ("nb_units", "n_tuple", "__init__"):
+            deco = " ".join(ast.unparse(d) for d in f.decorator_list)
+            props[(f.name, deco)] = "; ".join(" ".join(ast.unparse(st).split()) for st in f.body if not is_doc(st))
+    keys = [("nb_units", "property"), ("n_tuple", "property"), ("n_tuple", "n_tuple.setter"), ("__init__", "")]
+    for k in keys:
+        if k not in props:
+            raise Unsupported("UnitaryAlignment.%s (%s) not found" % k)
+    out += ["Definition unitary_alignment_src : list (string * string) := [%s]." % "; ".join('("%s", "%s")' % (("%s %s" % k).strip(), props[k].replace('"', '""')) for k in keys), ""]
     return [n for n, _ in ps]
 
 
